@@ -9,6 +9,7 @@ import (
 	"strings"
 	"testing"
 
+	"google.golang.org/grpc"
 	"pgregory.net/rapid"
 	"verifharness/kit"
 )
@@ -191,3 +192,5 @@ func tapSummary(evs []kit.Ev, max int) []string {
 	}
 	return out
 }
+
+type grpcServerStream = grpc.ServerStream
